@@ -183,3 +183,32 @@ def cross_namespace_inheritance_models():
                         out.append((Model((nss['na'], nss['nb'])), ('cross-namespace-inheritance', kind, mname, 'same-names' if same else 'distinct', 'default' if with_default else 'plain',
                                                                     home + '<-' + user)))
     return out
+
+
+def three_namespace_chain_models():
+    """Alias chains that span three namespaces: `low` defines a struct and a union, `mid` aliases them, `top` aliases the aliases
+    and uses them (field, nullable, list item, tag default, parent through the alias chain is not allowed) without ever naming `low`.
+    Every assignment of the three roles to the names na / nb / nc (six import-order situations)."""
+    import itertools
+    from .model import (Model, Namespace, File, Alias, TagLit, R, N, L, M, P, VOID, mkfield, mktag, mkstruct, mkunion, mkroute)
+    I32 = P('Int32', ())
+    out = []
+    for low, mid, top in itertools.permutations(('na', 'nb', 'nc')):
+        for variant in ('alias-of-alias', 'direct-use-of-mid', 'both'):
+            low_defs = (mkstruct('Base', fields=[mkfield('x', I32)]), mkunion('Mode', tags=[mktag('serial'), mktag('parallel', I32)]))
+            mid_defs = (Alias('MidBase', R(low, 'Base'), None, ()), Alias('MidMode', R(low, 'Mode'), None, ()), Alias('MidList', L(R(low, 'Base'), None, None), None, ()))
+            top_defs = []
+            fields = []
+            if variant in ('alias-of-alias', 'both'):
+                top_defs += [Alias('TopBase', R(mid, 'MidBase'), None, ()), Alias('TopMode', R(mid, 'MidMode'), None, ())]
+                fields += [mkfield('tb', R(None, 'TopBase')), mkfield('tm', R(None, 'TopMode'), TagLit('serial')), mkfield('tn', N(R(None, 'TopBase')))]
+            if variant in ('direct-use-of-mid', 'both'):
+                fields += [mkfield('mb', R(mid, 'MidBase')), mkfield('mm', R(mid, 'MidMode'), TagLit('serial')), mkfield('ml', R(mid, 'MidList')),
+                           mkfield('mq', L(R(mid, 'MidMode'), None, None))]
+            top_defs += [mkstruct('Use', fields=fields), mkunion('UseU', tags=[mktag('uv'), mktag('ub', R(mid, 'MidBase')), mktag('um', N(R(mid, 'MidMode')))]),
+                         mkroute('ru', 1, R(None, 'Use'), R(mid, 'MidBase'), R(None, 'UseU'))]
+            nss = {low: Namespace(low, (File(None, (), tuple(sorted(low_defs, key=mm_def_key))),)),
+                   mid: Namespace(mid, (File(None, (low,), tuple(sorted(mid_defs, key=mm_def_key))),)),
+                   top: Namespace(top, (File(None, (mid,), tuple(sorted(top_defs, key=mm_def_key))),))}
+            out.append((Model((nss['na'], nss['nb'], nss['nc'])), ('three-namespace-alias-chain', variant, 'low=%s mid=%s top=%s' % (low, mid, top))))
+    return out
